@@ -46,7 +46,7 @@ def check(pid, tier, seed, replay=None):
                         for st in sorted(set(sets)):
                             chains.append({"a": "Chain", "chain": s, "ctx": "none", "enabled": True, "fin": "Msg", "var": var, "set": st})
             meths = sorted({m for s in seqs for m in s})
-            big = {"StrBig", "BytesBig"}
+            big = {"StrBig", "BytesBig", "StrLongEsc"}
 
             def rchain(n):
                 out = []
